@@ -506,7 +506,8 @@ pub struct CasePreset {
     pub var: (String, String),
     pub mac: (String, Expr),
     pub e: Expr,
-    /// 0 --split-by, 1 --filter, 2 --sort-by, 3 --group-by, 4 --select
+    /// 0 --split-by, 1 --filter, 2 --sort-by, 3 --group-by, 4 --select, 5 the macro (which reads
+    /// /A/) selected before and after the selection A
     pub position: u8,
     pub records: Vec<String>,
 }
@@ -521,20 +522,24 @@ impl Check for C12Preset {
         tier.pick(30_000, 1_000_000)
     }
     fn strategy(&self, _t: Tier) -> BoxedStrategy<CasePreset> {
-        (vec(any::<u32>(), 0..300), 0u8..5)
+        (vec(any::<u32>(), 0..300), 0u8..6)
             .prop_map(|(tape, position)| {
                 let mut g = Gen::new(&tape, GenCfg { ill: 1, bind_bias: true, ctx: true, exclude: vec!["exec", "trigger", "now", "env", "parse_selection"], ..GenCfg::default() });
                 let mut env = Env::top();
                 // the kind the position wants, so that the option does something
-                let want = [ArrNum, Bool, Num, Str, Any][position as usize];
+                let want = [ArrNum, Bool, Num, Str, Any, Any][position as usize];
                 let vk = if g.tape.chance(1, 2) { want } else { *g.tape.pick(LEAF_KINDS) };
                 let vname = g.tape.pick_s(&["v", "w", "foo", "index", "value", "key"]).to_string();
                 let vlit = g.lit(vk, 2);
                 env.vars.push((vname.clone(), vk));
                 let mk = if g.tape.chance(1, 2) { want } else { *g.tape.pick(&[Num, Str, Bool, ArrNum]) };
-                let mbody = g.expr(mk, 2, &env);
+                let mut mbody = g.expr(mk, 2, &env);
+                if position == 5 {
+                    // the macro reads a selection that is made between its two uses
+                    mbody = Expr::call("default", vec![Expr::Sel("A".into()), mbody]);
+                }
                 env.macros.push(("m".to_string(), mk));
-                let e = g.expr(want, 3, &env);
+                let e = if position == 5 { Expr::Mac("m".into()) } else { g.expr(want, 3, &env) };
                 let n = 2 + g.tape.below(4);
                 let records = (0..n).map(|_| g.record()).collect();
                 CasePreset { var: (vname, vlit), mac: ("m".to_string(), mbody), e, position, records }
@@ -556,6 +561,7 @@ impl Check for C12Preset {
                 1 => vec![format!("--filter={}", t)],
                 2 => vec![format!("--sort-by={} DESC", t)],
                 3 => vec![format!("--group-by={}", t)],
+                5 => vec![format!("--select={} = x0", t), "--select=.n = A".into(), format!("--select={} = x1", t)],
                 _ => vec![format!("--select={} = x", t), "--select=.n = n".into()],
             }
         };
@@ -589,7 +595,7 @@ impl Check for C12Preset {
         };
         CaseResult::Pass(
             Info::new(uses && effect)
-                .class(["in_split_by", "in_filter", "in_sort_by", "in_group_by", "in_select"][c.position as usize])
+                .class(["in_split_by", "in_filter", "in_sort_by", "in_group_by", "in_select", "macro_before_and_after_the_selection_it_reads"][c.position as usize % 6])
                 .class_if(uses, "uses_binding")
                 .class_if(c.mac.1.any(&|x| matches!(x, Expr::Ctx(_))), "macro_reads_the_input_context")
                 .class_if(effect, "option_has_an_effect")
